@@ -29,6 +29,14 @@ func installHooks() {
 	}
 	hooksInstalled = true
 	am.VerifSetPointHook(func(p string, f *am.Func) {
+		if p == "struct.deref" {
+			// one step of the loop that unwraps pointer types while a
+			// signature is analysed: counts like a graph-loop step
+			if atomic.AddInt64(&graphSteps, 1) == stepLimit {
+				panic(boundExceeded{"step bound exceeded while unwrapping a pointer type (non-terminating signature analysis)"})
+			}
+			return
+		}
 		if h := casePointHook; h != nil {
 			h(p, f)
 		}
